@@ -188,6 +188,40 @@ def run(tier, replay=None):
                     ck.violation("%s mode: the output of a statement that fails and the report of its failure come out as %s, expected %s: %r" % (mode, seq, want, sc[:120]),
                                  {"script": sc, "mode": mode, "stdout": out[:2000]})
         ck.part("order of output and failure reports", scripts=len(orders), runs=len(ojobs))
+    # ---- loops whose bodies end in every statement form, as top-level statements of a script: how often the body ran (a counter written
+    # by a probe statement afterwards) is what CalcSem says, in every mode -- file mode compiles such a loop with its value discarded
+    if not replay:
+        import props
+        lf = []
+        for fname, f in props.c09_forms():
+            if any(n["t"] in ("ret", "yield") for n in walk(f)):
+                continue
+            probe = lambda v: wr(bin_("+", bin_("+", St("<<K:"), call("toa", N(v))), St(">>")))
+            lf.append({"id": len(lf) + 1, "items": [props.IDF, assign("gx", I(1)), assign("kk", I(0)), wh(bin_("<", N("kk"), I(3)), block([assign("kk", bin_("+", N("kk"), I(1))), f])), probe("kk"),
+                                                   assign("tq", I(0)), fr(["q"], [call("fromto", I(0), I(3))], block([assign("tq", bin_("+", N("tq"), I(1))), f])), probe("tq"),
+                                                   assign("kk", I(0)), wh(bin_("<", N("kk"), I(2)), block([assign("kk", bin_("+", N("kk"), I(1))), fr(["q"], [call("fromto", I(0), I(2))], f), f])), probe("kk")],
+                       "stdin": [], "meta": fname})
+        so = sess.spec_obs(lf)
+        ljobs = []
+        for s in lf:
+            ob = so.get(s["id"], [])
+            if len(ob) != len(s["items"]) or any("val" not in o for o in ob):
+                continue
+            want = _re.findall(r"<<K:[^>]*>>", "".join("".join(o.get("out", [])) for o in ob))
+            text = "\n".join(ps(it) for it in s["items"])
+            ljobs += [(s["meta"], text, want, "file", text + "\n"), (s["meta"], text, want, "repl", text + "\n"), (s["meta"], text, want, "eval", " ".join(ps(it) for it in s["items"]))]     # -eval: the statements one after the other (the parser's program rule takes no line break between statements)
+        with concurrent.futures.ThreadPoolExecutor(max_workers=vlib.NCPU) as ex:
+            futs = {ex.submit(run_calc, calc, mode, inp, tmpdir, 500000 + k): (fname, text, want, mode) for k, (fname, text, want, mode, inp) in enumerate(ljobs)}
+            for f in concurrent.futures.as_completed(futs):
+                fname, text, want, mode = futs[f]
+                rc, out, err = f.result()
+                ck.cov["evaluations"] += 1
+                ck.cov["traces_validated_against_impl"] += 1
+                got = _re.findall(r"<<K:[^>]*>>", out)
+                if rc != 0 or got != want:
+                    ck.violation("%s mode: loops whose body ends in the form %s ran %s, specified %s%s: %r" % (mode, fname, got, want, (" exit %d" % rc) if rc else "", text[:160]),
+                                 {"statement": text, "mode": mode, "stdout": out[:2000]})
+        ck.part("loops whose bodies end in every statement form, as top-level statements, in three modes", forms=len(ljobs) // 3, runs=len(ljobs))
     # ---- several statements in one text, some of them failing at run time: every mode runs all of them, in order (what each writes and
     # whether it fails comes from CalcSem; the text of the reports carries addresses and is not compared)
     if not replay:
